@@ -155,6 +155,9 @@ func (l *loaded) redirectBbolt() error {
 	if n < 30 {
 		return fmt.Errorf("only %d bbolt methods redirected", n)
 	}
+	if bp.Func("Open") != nil && mp.Func("Open") != nil {
+		l.P.Redirect(bp.Func("Open"), mp.Func("Open"))
+	}
 	return nil
 }
 
@@ -179,7 +182,7 @@ func initAllow(path string) bool {
 
 // packages whose globals may be read as zero values without running init
 var zeroOKList = map[string]bool{
-	"sync": true, "runtime": true, "time": true, "context": true, "errors": true, "internal/reflectlite": true, "math": true, "internal/race": true, "internal/godebug": true,
+	"sync": true, "runtime": true, "go.etcd.io/bbolt": true, "time": true, "context": true, "errors": true, "internal/reflectlite": true, "math": true, "internal/race": true, "internal/godebug": true,
 	repoMod + "/zitiql": false,
 }
 
